@@ -1,0 +1,6 @@
+//go:build !verif
+
+// Package verifhook: without the "verif" build tag every hook is an empty function.
+package verifhook
+
+func At(string) {}
